@@ -522,6 +522,15 @@ class StaticSel(Selection):
             return Selection.none()
 
 
+def _same_selection(a: Selection, b: Selection) -> bool:
+    """Structural identity of two selections, used for the idempotence shortcuts of `&` and
+    `|`. Dataclass equality would compare the array values held by `ChmSel` selections, which
+    is ambiguous for arrays and impossible for traced values; only addresses matter here."""
+    leaves_a, tree_a = jtu.tree_flatten(a)
+    leaves_b, tree_b = jtu.tree_flatten(b)
+    return tree_a == tree_b and all(x is y for x, y in zip(leaves_a, leaves_b))
+
+
 @Pytree.dataclass(match_args=True)
 class AndSel(Selection):
     """Represents a selection that combines two other selections using a logical AND operation.
@@ -558,7 +567,7 @@ class AndSel(Selection):
                 return a
             case (_, NoneSel()):
                 return b
-            case (a, b) if a == b:
+            case (a, b) if _same_selection(a, b):
                 return a
             case _:
                 return AndSel(a, b)
@@ -610,7 +619,7 @@ class OrSel(Selection):
                 return b
             case (_, NoneSel()):
                 return a
-            case (a, b) if a == b:
+            case (a, b) if _same_selection(a, b):
                 return a
             case _:
                 return OrSel(a, b)
